@@ -17,7 +17,10 @@ Outcomes == {"ok", "skipped", "error", "panic"}
 
 \* value classes whose meaning is "out of range although schema-valid": success is not acceptable.
 \* (An arc of 2^31 fits the 64-bit integers gopki is built for and encodes correctly: accepted.)
-MustNotSucceed == {"oid arc >= 2^63", "oid arc 40 digits", "integer >= 2^63", "integer 10^30", "integer <= -2^63"}
+\* Further ones: an OID whose first two arcs do not fit the one subidentifier they share (40 * a + b); an IPv4 octet
+\* outside 0..255; a duration whose number does not fit an integer; a negative serial number (C02: non-negative).
+MustNotSucceed == {"oid arc >= 2^63", "oid arc 40 digits", "integer >= 2^63", "integer 10^30", "integer <= -2^63",
+                   "oid first two arcs overflow", "ip octet 256", "ip octet -1", "duration 20 digits", "serial negative"}
 
 Allowed(class) == IF class \in MustNotSucceed THEN {"skipped", "error"} ELSE {"ok", "skipped", "error"}
 
